@@ -70,11 +70,14 @@ class choice_point:
         self.matches_cur = self.matches = None
         return False
 
-    def reduce_atoms(self, atom):
+    def reduce_atoms(self, atom, skip_built_depends=False):
         """Alter choice point atom set.
 
         :param atom: set of package atoms
         :type atom: set of :obj:`pkgcore.ebuild.atom.atom`
+        :param skip_built_depends: leave the build-time classes of built
+            packages alone (the caller never resolves them, so a hopeless
+            build dependency is no reason to give up an installed package)
         :return: True if no more pkgs remain or atoms were removed,
             False if no atoms were removed
         """
@@ -95,7 +98,10 @@ class choice_point:
             if round and not self._internal_force_next():
                 return True
 
-            for depset_name in ("_bdeps", "_deps", "_rdeps", "_prdeps", "_ideps"):
+            depset_names = ("_bdeps", "_deps", "_rdeps", "_prdeps", "_ideps")
+            if skip_built_depends and getattr(self.matches_cur, "built", False):
+                depset_names = depset_names[2:]
+            for depset_name in depset_names:
                 depset = getattr(self, depset_name)
                 reqs = list(self._filter_choices(depset, filterset))
                 if len(reqs) != len(depset):
